@@ -421,6 +421,11 @@ impl Kernel {
         }
     }
 
+    /// unread frames on AF_PACKET sockets that someone is supposed to be reading
+    pub fn rx_backlog(&self) -> usize {
+        self.with(|k| k.socks.values().filter(|s| !s.dead && s.kind == Kind::Packet && s.proto as u16 != 0x0003).map(|s| s.rxq.len()).sum())
+    }
+
     pub fn take_out(&self) -> Vec<OutEv> {
         self.with(|k| std::mem::take(&mut k.out))
     }
@@ -1356,7 +1361,7 @@ impl SimKernel for KHandle {
                 let n = self.k().end_read(conn, side, buf)?;
                 self.k().with(|k| {
                     let now = k.now_ns();
-                    k.log.ev(now, "sys.read", conn as u64, n as u64, &[]);
+                    k.log.ev(now, "sys.read", conn as u64, (n == 0) as u64, &[]);
                 });
                 Ok(RecvOut { len: n, addr: None, cmsgs: vec![] })
             }
@@ -1575,7 +1580,10 @@ impl SimKernel for KHandle {
                 let n = kh.end_write(c, side, buf)?;
                 kh.with(|k| {
                     let now = k.now_ns();
-                    k.log.ev(now, "sys.write", c as u64, n as u64, &buf[..n.min(64)]);
+                    /* neither the size nor the content of stream writes is hashed: the body of
+                     * /metrics contains the real pid, memory and CPU figures of this worker */
+                    let _ = n;
+                    k.log.ev(now, "sys.write", c as u64, 0, &[]);
                 });
                 Ok(n)
             }
